@@ -31,6 +31,14 @@ let impl (fn : string) (a : string array) : string option =
   | "CutPrefix" ->
     let f r = res_map (fun (sl, fl) -> sslice sl ^ ":" ^ sbool fl) r in
     Some (both (f (i_cut_prefix_str (s 0) (s 1))) (f (i_cut_prefix_byt (s 0) (s 1))))
+  | "HasSuffix" ->
+    let f r = res_map (fun (m, _) -> sbool m) r in
+    Some (both (f (i_has_suffix_unicode_str (s 0) (s 1))) (f (i_has_suffix_unicode_byt (s 0) (s 1))))
+  | "TrimSuffix" ->
+    Some (both (res_map sslice (i_trim_suffix_str (s 0) (s 1))) (res_map sslice (i_trim_suffix_byt (s 0) (s 1))))
+  | "CutSuffix" ->
+    let f r = res_map (fun (sl, fl) -> sslice sl ^ ":" ^ sbool fl) r in
+    Some (both (f (i_cut_suffix_str (s 0) (s 1))) (f (i_cut_suffix_byt (s 0) (s 1))))
   (* unexported strategies (hooks under verif_internals): "str-result|byt-result" *)
   | "i.hasPrefixUnicode" ->
     let f r = res_map (fun (m, e) -> sbool m ^ ":" ^ sbool e) r in
